@@ -65,8 +65,11 @@ def intFns : Fns Int where
   pwnorm := fun v i => (v i).natAbs
   pdiv := fun a b i => a i / b i
   simplex := fun r v i => max (v i - (v 0 - r)) 0
+  wsimplex := fun r v w i => max (v i - (v 0 - r) / w i) 0
+  bidx := id
 
-def intPar : Par Int := { lam := 1, sigma := 2, gamma := 1, radius := 1, eps := 0, a := 3, b := 5 }
+def intPar : Par Int :=
+  { lam := 1, sigma := 2, gamma := 1, radius := 1, eps := 0, cw := 1, a := 3, b := 5 }
 
 end OdlModel.C10
 
@@ -291,5 +294,5 @@ theorem C10.l1_without_guard_fails : ¬ AliasSafe (l1NoGuard intFns intPar) := b
 example : (run (fun _ _ => 0) (prog intFns intPar (.l1 false false)) 0 0 (fun _ _ => 5)).mem 0 0 = 3 := by
   simp [run, exec, prog, env0, Env.set, St.write, srcVals, intFns, intPar]
 
-example : AliasSafe (prog intFns intPar .huber) :=
-  C10.alias_safe intFns (by intro b; cases b <;> simp [intFns]) intPar .huber
+example : AliasSafe (prog intFns intPar (.huber true)) :=
+  C10.alias_safe intFns (by intro b; cases b <;> simp [intFns]) intPar (.huber true)
